@@ -187,13 +187,17 @@ BaseOp(op) == CASE op = "+=" -> "+" [] op = "-=" -> "-" [] op = "*=" -> "*" [] o
 \* (none / u / l / ul / ll / ull as i32 / u32 / il / ul / i64 / u64); narrower types are written as a cast of an int literal
 LitBase(e) == IF e.ty \in {"i32", "u32", "il", "ul", "i64", "u64"} THEN e.ty ELSE "i32"
 LitFits(w8, n, sgn) == (\A j \in (n + 1)..8 : w8[j] = 0) /\ (sgn => w8[n] < 128)
-LitType0(e) ==            \* decimal constants: first type of the list in which the value fits
-    LET b == LitBase(e) IN
-    CASE b = "i32" -> IF LitFits(e.w, 4, TRUE) THEN "i32" ELSE IF LitFits(e.w, 8, TRUE) THEN "il" ELSE "none"     \* int, long, long long
+LitHex(e) == "hex" \in DOMAIN e /\ e.hex      \* written in hexadecimal / octal: the unsigned types join the list
+LitType0(e) ==            \* first type of the list of 6.4.4.1p5 in which the value fits
+    LET b == LitBase(e)  h == LitHex(e) IN
+    CASE b = "i32" -> IF LitFits(e.w, 4, TRUE) THEN "i32"                             \* int, [unsigned int,] long, [unsigned long,] ...
+                      ELSE IF h /\ LitFits(e.w, 4, FALSE) THEN "u32"
+                      ELSE IF LitFits(e.w, 8, TRUE) THEN "il"
+                      ELSE IF h THEN "ul" ELSE "none"
       [] b = "u32" -> IF LitFits(e.w, 4, FALSE) THEN "u32" ELSE "ul"                 \* unsigned int, unsigned long, ...
-      [] b = "il" -> IF LitFits(e.w, 8, TRUE) THEN "il" ELSE "none"
+      [] b = "il" -> IF LitFits(e.w, 8, TRUE) THEN "il" ELSE IF h THEN "ul" ELSE "none"
       [] b = "ul" -> "ul"
-      [] b = "i64" -> IF LitFits(e.w, 8, TRUE) THEN "i64" ELSE "none"
+      [] b = "i64" -> IF LitFits(e.w, 8, TRUE) THEN "i64" ELSE IF h THEN "u64" ELSE "none"
       [] b = "u64" -> "u64"
 LitType(e) == IF LitBase(e) = e.ty THEN LitType0(e) ELSE e.ty
 LitVal(e) ==
